@@ -26,7 +26,7 @@ FUNC_CHECKS = [
     ('FlattenIntoWithPath', ['C03', 'C04']), ('FlattenUpTo', ['C07', 'C05']), ('FlattenInto', ['C01', 'C03', 'C02']),
     ('Flatten', ['C01', 'C03']), ('Unflatten', ['C01', 'C05']), ('Broadcast', ['C09']),
     ('Compose', ['C08', 'C10']), ('Transform', ['C08']), ('Children', ['C08']), ('Child', ['C08']), ('OneLevel', ['C08', 'C18']),
-    ('Entries', ['C08', 'C04']), ('Entry', ['C08', 'C04']), ('Paths', ['C04', 'C08']), ('Accessors', ['C04', 'C08']),
+    ('Entries', ['C08', 'C04']), ('Entry', ['C08', 'C04']), ('Paths', ['C03', 'C04']), ('Accessors', ['C03', 'C04']),
     ('IsPrefix', ['C07']), ('operator', ['C06']), ('EqualTo', ['C06']), ('Hash', ['C06']), ('ToString', ['C06', 'C08']),
     ('ToPickleable', ['C11']), ('FromPickleable', ['C11']), ('Walk', ['C08', 'C05']), ('Traverse', ['C08', 'C14']),
     ('PyTreeIter', ['C03']), ('Next', ['C03']), ('MakeFrom', ['C08']), ('MakeLeaf', ['C08']), ('MakeNone', ['C08']),
